@@ -105,6 +105,11 @@ func (v *autoEscapeVisitor) escapePrints(n parse.Node, ct string) {
 }
 
 func (v *autoEscapeVisitor) guessTypeFromName(name string) string {
+	if strings.Contains(name, "{{") || strings.Contains(name, "{%") || strings.Contains(name, "{#") {
+		// an inline template: its "name" is its source, not a file name, and
+		// the words it ends with ("... see notes.txt") are not an extension
+		return "html"
+	}
 	name = strings.TrimSuffix(name, ".twig")
 	if p := strings.LastIndex(name, "."); p >= 0 {
 		ext := name[p+1:]
